@@ -38,7 +38,18 @@ def load_units(prop):
     return mod, units
 
 
+def _limit_memory():
+    # backstop: no checker process may grow beyond 20 GB of address space (the machine has 64 GB and runs 16 of them);
+    # a MemoryError then ends the unit as a checker error instead of the kernel killing an arbitrary process
+    try:
+        import resource
+        resource.setrlimit(resource.RLIMIT_AS, (20 * 1024 ** 3, 20 * 1024 ** 3))
+    except Exception:      # noqa: BLE001
+        pass
+
+
 def _worker(job):
+    _limit_memory()
     prop, idx, case, tier, seed = job
     mod, units = load_units(prop)
     units = [u for u in units if not getattr(u, 'tiers', None) or tier in u.tiers]
